@@ -17,6 +17,7 @@ from lib import core
 from extract import claims as claims_gen
 
 DRIVER = "drv_spacedist"
+LEAN_TARGETS = ["OmplModel.Props.C06", DRIVER]
 B = core.f2bits
 F = core.bits2f
 PI = math.pi
@@ -957,8 +958,8 @@ def run(ck):
     table, changed = claims_gen.generate(ck, hbin)
     ck.extra_cov["claims_table"] = {n: c for n, _s, c in table}
     ck.extra_cov["claims_file_rewritten"] = changed
-    ck.lean_build(["OmplModel.Props.C06", DRIVER])
-    ck.audit()
+    ck.lean_build(LEAN_TARGETS)
+    ck.audit(roots=["Drv.SpaceDist"])
     if ck.tier == "thorough" and ck.lean_ok:
         ck.leanchecker(["OmplModel.Props.C06"])
     if not ck.lean_ok:
@@ -1012,7 +1013,7 @@ def replay(ck, data):
     if not script:
         # a broken obligation (failed lake build / audit / claims coverage): re-check it
         table, _ = claims_gen.generate(ck, hbin)
-        ok = ck.lean_build(["OmplModel.Props.C06", DRIVER]) and ck.audit()
+        ok = ck.lean_build(LEAN_TARGETS) and ck.audit(roots=["Drv.SpaceDist"])
         print("obligation: %s" % data.get("obligation"))
         print("lake build + audit on the current tree: %s" % ("ok" if ok else "FAILED"))
         return 0 if ok else 1
